@@ -35,7 +35,9 @@ QSet == {"urgent", "system", "main", "log"}
 \*  panic  regular message, handler panics
 \*  exit   exit signal from a non-parent (trapped if Trap)
 \*  exitp  exit signal from the parent (never trapped)
-Kinds == {"msg", "err", "panic", "exit", "exitp"}
+\*  call   regular message whose handler makes a synchronous request to another process (which answers at once):
+\*         waitResponse = wait.enter (CAS running -> wait), select, wait.leave (CAS wait -> running)
+Kinds == {"msg", "err", "panic", "exit", "exitp", "call"}
 
 Runners == {RSeq[i] : i \in 1..Len(RSeq)}
 TThreads == {TOf[k] : k \in Killers}
@@ -192,7 +194,7 @@ RPick(r) ==
 
 \* handler body and return
 RCb(r) ==
-  /\ rpc[r] = "cb"
+  /\ rpc[r] = "cb" /\ rcur[r].kind # "call"
   /\ inCb' = inCb \ {r}
   /\ rcur' = [rcur EXCEPT ![r] = NoCell]
   /\ LET k == rcur[r].kind IN
@@ -200,6 +202,32 @@ RCb(r) ==
      ELSE IF k = "panic" THEN rpc' = [rpc EXCEPT ![r] = "run.term"] /\ rwhy' = [rwhy EXCEPT ![r] = "panic"]
      ELSE rpc' = [rpc EXCEPT ![r] = "actor.pick"] /\ UNCHANGED rwhy
   /\ UNCHANGED <<state, inTable, mbox, spc, sn, sres, kpc, kres, tpc, handled, terms, unregs, cbAfterTerm>>
+
+\* the handler of a "call" message: up to the state CAS of waitResponse (the runner stays inside the callback)
+\* (process.CallPID refuses at once unless the state word is running: then the handler just returns)
+RCbCall(r) ==
+  /\ rpc[r] = "cb" /\ rcur[r].kind = "call"
+  /\ IF state = "running"
+       THEN rpc' = [rpc EXCEPT ![r] = "wait.enter"] /\ UNCHANGED <<inCb, rcur>>
+       ELSE rpc' = [rpc EXCEPT ![r] = "actor.pick"] /\ inCb' = inCb \ {r} /\ rcur' = [rcur EXCEPT ![r] = NoCell]
+  /\ UNCHANGED <<state, inTable, mbox, spc, sn, sres, rwhy, kpc, kres, tpc, handled, terms, unregs, cbAfterTerm>>
+
+\* CAS running -> wait; on failure (killed meanwhile) the call returns an error and the handler returns
+RWaitEnter(r) ==
+  /\ rpc[r] = "wait.enter"
+  /\ IF state = "running"
+       THEN state' = "wait" /\ rpc' = [rpc EXCEPT ![r] = "wait.leave"] /\ UNCHANGED <<inCb, rcur>>
+       ELSE UNCHANGED state /\ rpc' = [rpc EXCEPT ![r] = "actor.pick"] /\ inCb' = inCb \ {r} /\ rcur' = [rcur EXCEPT ![r] = NoCell]
+  /\ UNCHANGED <<inTable, mbox, spc, sn, sres, rwhy, kpc, kres, tpc, handled, terms, unregs, cbAfterTerm>>
+
+\* the response is there: CAS wait -> running (fails if the process was killed while waiting); the handler returns
+RWaitLeave(r) ==
+  /\ rpc[r] = "wait.leave"
+  /\ state' = IF state = "wait" THEN "running" ELSE state
+  /\ rpc' = [rpc EXCEPT ![r] = "actor.pick"]
+  /\ inCb' = inCb \ {r}
+  /\ rcur' = [rcur EXCEPT ![r] = NoCell]
+  /\ UNCHANGED <<inTable, mbox, spc, sn, sres, rwhy, kpc, kres, tpc, handled, terms, unregs, cbAfterTerm>>
 
 RSleep(r) ==
   /\ rpc[r] = "run.sleep"
@@ -317,7 +345,7 @@ TTermCb(t) ==
 
 -----------------------------------------------------------------------------
 SStep(s) == SLookup(s) \/ SAlive(s) \/ SPush(s) \/ SLink(s) \/ SWake(s)
-RStep(r) == RBegin(r) \/ RPick(r) \/ RCb(r) \/ RSleep(r) \/ RRecheck(r) \/ RReacquire(r)
+RStep(r) == RBegin(r) \/ RPick(r) \/ RCb(r) \/ RCbCall(r) \/ RWaitEnter(r) \/ RWaitLeave(r) \/ RSleep(r) \/ RRecheck(r) \/ RReacquire(r)
             \/ RTerm(r) \/ RUnreg(r) \/ RTermCb(r)
 KStep(k) == KStart(k) \/ KSkip(k) \/ KLookup(k) \/ KZombie(k) \/ KRestore(k) \/ KTerm(k) \/ KUnreg(k)
 TStep(t) == TBegin(t) \/ TTermCb(t)
@@ -341,7 +369,7 @@ Serial == Cardinality(inCb) <= 1
 
 \* the process is owned by at most one runner (a runner that gave the process back and is
 \* re-checking the mailbox legitimately coexists with its successor)
-Owners == {r \in Runners : rpc[r] \in {"run.begin", "actor.pick", "cb", "run.sleep"}}
+Owners == {r \in Runners : rpc[r] \in {"run.begin", "actor.pick", "cb", "wait.enter", "wait.leave", "run.sleep"}}
 OneOwner == Cardinality(Owners) <= 1
 
 \* model bound check: a wake-up never lacks a free runner slot
